@@ -13,7 +13,21 @@ where
         get_byte!(self, pos) == Some(&b)
     }
 
-    pub(super) fn skip_to_next_entry_start(&mut self) {
+    pub(super) fn skip_to_next_entry_start(&mut self, entry_start: usize) -> Option<usize> {
+        let end = self.ptr.min(self.length);
+        let rewound = self.source.as_ref().as_bytes()[entry_start..end]
+            .iter()
+            .rposition(|b| *b == b'\n')
+            .filter(|pos| *pos > 0)
+            .map(|pos| entry_start + pos);
+        if let Some(pos) = rewound {
+            self.ptr = pos;
+        }
+        self.scan_to_next_entry_start();
+        rewound
+    }
+
+    fn scan_to_next_entry_start(&mut self) {
         while let Some(b) = get_current_byte!(self) {
             let new_line = self.ptr == 0 || get_byte!(self, self.ptr - 1) == Some(&b'\n');
 
